@@ -24,6 +24,11 @@ Two parts:
   `cfg.globals` as a reference, any number of configurations built in one world
   (`adopt = false`: risor_options.go as it is, `WithGlobals` copies; `adopt = true`: contrast).
 
+* `overrideModO`, `initCfgO`, `buildO`, `runBuildsO`, `accessIn` — host OBJECTS (replacement builtins,
+  host values) shared between configurations built in one world: `adopt = false` is
+  object/module.go as it is (`Module.Override` writes the module's table only, no back-pointer);
+  `adopt = true` is the contrast in which Override re-aims the replacement's `Builtin.module`.
+
 Object identities are natural numbers; `root = 0` stands for the script's global scope.
 Core Lean only.
 -/
@@ -594,5 +599,88 @@ def flatten (heap0 : List (Id × Table)) : List HOpt → List Opt
     evaluation and no module heap enters -/
 def ownGlobals (heap0 : List (Id × Table)) (b : Build) : Table :=
   (initFrom (applyOpts (flatten heap0 b.opts)) b.dflt [] [] b.ds b.os).globals
+
+/-! ## Host OBJECTS shared between configurations (object/module.go: Module.Override;
+object/builtin.go: the `module` field)
+
+The value handed to `WithGlobalOverride` (or to `WithGlobal(s)`) is an OBJECT of the host.  A host
+creates such a replacement once and installs the same object in any number of configurations
+(one per tenant), which differ in what else they deny or override.  The only state of a builtin
+function a script can follow is its `Builtin.module` field (`__module__`): `St.back` / `World.back`.
+`Module.Override` as it is stores the replacement in the module's table and writes nothing else —
+the replacement keeps the back-pointer the host gave it (none: `__module__` is nil).  The contrast
+variant ("a replacement becomes a member like any other") re-aims the replacement's back-pointer at
+the module being edited; every configuration built later then re-aims the ONE shared field at ITS
+module. -/
+
+/-- `builtin.module = m` for the builtin `b`; an object that has no such field (no entry in
+    `back`: a module, a string, a container) is left alone -/
+def bput (back : List (Id × Id)) (b m : Id) : List (Id × Id) :=
+  back.map fun e => if e.1 = b then (e.1, m) else e
+
+/-- `Module.Override(name, value)` finds `name` among the attributes of `m` (and is not refused) -/
+def overrideHits (st : St) (m : Id) (name : Name) : Bool :=
+  name != dunderName &&
+    match st.table m with
+    | some t => (tget t name).isSome
+    | none => false
+
+/-- `Module.Override(name, value)` with the treatment of the replacement as a parameter.
+    `adopt = false` is object/module.go AS IT IS (`overrideMod`: only the table is written).
+    `adopt = true` is the contrast: a replacement that is stored also gets `module = m`. -/
+def overrideModO (adopt : Bool) (st : St) (m : Id) (name : Name) (v : Option Id) : St :=
+  let st' := overrideMod st m name v
+  match v with
+  | some x => if adopt && overrideHits st m name then { st' with back := bput st'.back x m } else st'
+  | none => st'
+
+/-- `editMember` (resolver as repaired) over `overrideModO` -/
+def editMemberO (adopt : Bool) (st : St) (mname : Name) (attr : List Name) (v : Option Id) : St :=
+  match tget st.globals mname with
+  | none => st
+  | some m =>
+    if st.isModule m then
+      match splitLast attr with
+      | none => st
+      | some (mp, last) =>
+        match resolveImpl st m mp with
+        | some tm => overrideModO adopt st tm last v
+        | none => st
+    else st
+
+/-- one overrides entry (`applyOverrides`) over `overrideModO` -/
+def overridePartsO (adopt : Bool) (st : St) (parts : List Name) (v : Id) : St :=
+  match parts with
+  | [] => st
+  | [n] => { st with globals := tput st.globals n v }
+  | mname :: attr => editMemberO adopt st mname attr (some v)
+
+/-- `Config.init` over `overrideModO` (removals are `Override(name, nil)`: nothing is stored) -/
+def initCfgO (adopt : Bool) (st : St) (denies : List (List Name)) (ovs : List (List Name × Id)) : St :=
+  ovs.foldl (fun s pv => overridePartsO adopt s pv.1 pv.2) (denies.foldl denyParts st)
+
+/-- `NewConfig(opts...)` in a world (`WithGlobals` copies: risor_options.go as it is) with the
+    Override rule as a parameter; `buildO false = build false` (`Lemmas.buildO_false`) -/
+def buildO (adoptOv : Bool) (w : World) (b : Build) : World × Built :=
+  let s := b.opts.foldl (applyHOpt false) ⟨w.heap, none, Cfg.empty⟩
+  let st := initCfgO adoptOv
+    ⟨mergeDefaults s.c.noDefaults s.globals b.dflt, w.mods ++ b.newMods, w.back ++ b.newBack⟩
+    (b.ds.map splitDots) (b.os.map fun kv => (splitDots kv.1, kv.2))
+  let s' := s.setGlobals st.globals
+  (⟨s'.heap, st.mods, st.back⟩, ⟨s'.gref, s'.c.globals⟩)
+
+/-- several configurations built one after the other in one world; the result lists, for every
+    build, the built Config and the world right after that build -/
+def runBuildsO (adoptOv : Bool) : World → List Build → World × List (Built × World)
+  | w, [] => (w, [])
+  | w, b :: bs =>
+    let r := buildO adoptOv w b
+    let rs := runBuildsO adoptOv r.1 bs
+    (rs.1, (r.2, r.1) :: rs.2)
+
+/-- what a script obtains under a configuration whose globals are `g`, in the world `w` (the
+    module heap and the back-pointers as they are THEN — after any number of later builds) -/
+def accessIn (w : World) (g : Table) (imp : Bool) (first : Name) (attrs : List Name) : Option Id :=
+  access ⟨g, w.mods, w.back⟩ imp first attrs
 
 end Risor.C11
